@@ -4,6 +4,7 @@ mod comp_sketch;
 mod engine;
 mod exec;
 mod gen;
+mod sched;
 mod sched_hooks;
 mod subject;
 mod sup;
@@ -16,6 +17,9 @@ use std::path::PathBuf;
 pub fn extra_engines(prop: &str, thorough: bool) -> Vec<sup::EnginePlan> {
     let mut v = Vec::new();
     let t = thorough;
+    if matches!(prop, "C02" | "C03" | "C04" | "C07" | "C08" | "C09" | "C10" | "C11") {
+        v.push(sup::EnginePlan { engine: "sched", workers: 16, cases_per_worker: if t { 12000 } else { 1200 }, timeout_s: if t { 2400 } else { 600 } });
+    }
     if prop == "C17" {
         v.push(sup::EnginePlan { engine: "cfg", workers: 16, cases_per_worker: if t { 6000 } else { 700 }, timeout_s: if t { 1500 } else { 400 } });
     }
@@ -40,6 +44,7 @@ pub fn rule_for(prop: &str, engine: &str) -> String {
         "sketch" => comp_sketch::RULE.to_string(),
         "cfg" => cfg_engine::RULE.to_string(),
         "deque" => comp_deque::RULE.to_string(),
+        "sched" => sched::RULE.to_string(),
         _ => String::new(),
     }
 }
@@ -82,12 +87,18 @@ fn main() {
             let cases: u32 = arg(&args, "--cases").and_then(|s| s.parse().ok()).unwrap_or(100);
             let dir = PathBuf::from(arg(&args, "--dir").expect("--dir"));
             let open: BTreeSet<String> = arg(&args, "--open").unwrap_or("").split(',').filter(|s| !s.is_empty()).map(|s| s.to_string()).collect();
-            let wa = engine::WorkerArgs { prop, thorough, seed, idx, cases, dir: dir.clone(), open_findings: open };
+            let nworkers: u64 = arg(&args, "--nworkers").and_then(|s| s.parse().ok()).unwrap_or(1);
+            let wa = engine::WorkerArgs { prop, thorough, seed, idx, nworkers, cases, dir: dir.clone(), open_findings: open };
             let res = match eng.as_str() {
                 "seq" => engine::seq_worker(&wa),
                 "sketch" => comp_sketch::sketch_worker(&wa),
                 "cfg" => cfg_engine::cfg_worker(&wa),
                 "deque" => comp_deque::deque_worker(&wa),
+                "sched" => {
+                    let r = sched::sched_worker(&wa);
+                    sched_hooks::install();
+                    r
+                }
                 other => panic!("unknown engine {other}"),
             };
             engine::write_result(&dir, idx, &res);
@@ -148,6 +159,7 @@ fn replay_found(found: &engine::Found, path: &str, quiet: bool) -> i32 {
         "sketch" => report(comp_sketch::replay(found), found, path),
         "cfg" => report(cfg_engine::replay(found), found, path),
         "deque" => report(comp_deque::replay(found), found, path),
+        "sched" => report(sched::replay(found, !quiet), found, path),
         other => {
             eprintln!("unknown engine {other}");
             2
